@@ -1,5 +1,5 @@
 (* Driver around the extracted descriptor model (engine FDS, shared by C02/C04/C08).
-   case:  run <variant: 5 flags dupclose,bcap,capclose,capfail,bunop e.g. 00000> <capture 0|1> <failing pipe() calls: - or 0,2> <unopenable paths: - or 3,4>
+   case:  run <variant: 5 flags dupclose,bcap,capclose,capfail,bunop e.g. 11111 = the code as it is> <capture 0|1> <failing pipe() calls: - or 0,2> <unopenable paths: - or 3,4>
               <initial table: 0,1,2,5x>  <stages: K:FROM:REDIRS:PRINTS|...>
    K = E(xternal) B(uiltin) N(ot found); FROM = - | h | <N ; REDIRS = - or comma list of
    1tN 1aN 2tN 2aN (trunc/append to path N) 2&1 1&2 1&1 2&2 ; PRINTS = string of o / e or - *)
@@ -95,6 +95,7 @@ let () =
         let cls = (if known_dupleak v last capture st then ["dupleak"] else [])
                   @ (if known_capredir v last capture st then ["capredir"] else [])
                   @ (if known_capdup last capture st then ["capdup"] else [])
+                  @ (if is_single_builtin { p_stages = sts; p_capture = capture } && lookahead_leak st.s_redirs then ["lookahead"] else [])
                   @ (if List.exists out_of_scope st.s_redirs then ["oos"] else []) in
         let i0 = std_in (obj_at 0) (nat_of_int i) st in
         let o0 = std_out (obj_at 1) (nat_of_int n) capture (nat_of_int i) in
